@@ -12,8 +12,15 @@ POOL = ["user@почта.рф".encode(), b"user@mail.ru", "иван@иванов
         b"u@a.abarth", b"not-an-address", "ü@bücher.example.org".encode()]
 
 
-def run_thr(cmd, env, timeout):
-    data = ("\n".join(a.hex() for a in POOL) + "\n").encode()
+# addresses that fail inside the IDN conversion with different codes (disallowed, Punycode input / overflow, encoding, joiner without
+# context, label too long, leading hyphen, bidi): their messages come from the IDN library at call time
+POOL_IDN = ["u@\u2615.de".encode(), b"u@xn--a-.example.org", b"u@\xff\xfe.com", "u@a\u200db.com".encode(), ("u@" + "\u00e9" * 70 + ".com").encode(),
+            b"u@xn--99999999.com", "u@-\u00e9.com".encode(), "u@a\u05d0.com".encode(), "u@\u0300a.com".encode(), b"u@xn--.com",
+            "user@\u043f\u043e\u0447\u0442\u0430.\u0440\u0444".encode(), b"user@mail.ru"]
+
+
+def run_thr(cmd, env, timeout, pool=None):
+    data = ("\n".join(a.hex() for a in (pool or POOL)) + "\n").encode()
     t0 = time.time()
     try:
         p = subprocess.run(cmd, input=data, stdout=subprocess.PIPE, stderr=subprocess.PIPE, env=env, timeout=timeout)
@@ -54,12 +61,38 @@ def valgrind_reports(err, tool):
     return out
 
 
-def w_tsan(exe, T, iters, seed, perturb):
+def w_tsan(exe, T, iters, seed, perturb, which="std", tool="tsan"):
     env = build.san_env({"TSAN_OPTIONS": "halt_on_error=0:exitcode=66:report_signal_unsafe=0:history_size=4",
                          "LC_ALL": "C.UTF-8" if seed % 2 else "C"})
-    rc, out, err, wall = run_thr([exe, str(T), str(iters), str(seed), str(perturb)], env, 600)
-    return {"tool": "tsan", "T": T, "seed": seed, "rc": rc, "out": out, "reports": tsan_reports(err) if err != "timeout" else [],
+    rc, out, err, wall = run_thr([exe, str(T), str(iters), str(seed), str(perturb)], env, 600, POOL_IDN if which == "idn" else None)
+    return {"tool": tool, "T": T, "seed": seed, "rc": rc, "out": out, "reports": tsan_reports(err) if err != "timeout" else [],
             "err": err[-2000:], "wall": wall}
+
+
+def w_plain(exe, T, iters, seed, launches, which, tool="plain"):
+    """The uninstrumented -O2 runner at full speed (real parallelism, outcomes compared with the sequential reference only): many short
+    launches, each a cold start of the library, or a few long ones; with the ordinary pool or the IDN-failure pool."""
+    agg = {"tool": tool, "T": T, "seed": seed, "rc": 0, "out": "", "reports": [], "err": "", "wall": 0.0}
+    tot = {"calls": 0, "overlapping_call_pairs": 0, "calls_overlapping_another_thread": 0, "mismatches": 0, "threads": T, "launches": 0}
+    for k in range(launches):
+        rc, out, err, wall = run_thr([exe, str(T), str(iters), str(seed * 1000 + k), str(k % 2)], dict(os.environ, LC_ALL="C.UTF-8" if k % 2 else "C"),
+                                     600, POOL_IDN if which == "idn" else None)
+        agg["wall"] += wall
+        if rc is None or rc not in (0, 3):      # 3: finished, outcomes differed (reported in the JSON)
+            agg.update(rc=rc, out=out, err=err[-2000:])
+            return agg
+        try:
+            info = json.loads(out.strip().split("\n")[-1])
+        except ValueError:
+            agg.update(rc=rc, out=out, err=err[-2000:])
+            return agg
+        for f in ("calls", "overlapping_call_pairs", "calls_overlapping_another_thread", "mismatches"):
+            tot[f] += info.get(f, 0)
+        tot["launches"] += 1
+        if info.get("mismatches") and "first_mismatch" not in tot:
+            tot["first_mismatch"] = info.get("first_mismatch", {})
+    agg["out"] = json.dumps(tot)
+    return agg
 
 
 def w_valgrind(exe, tool, T, iters, seed):
@@ -80,6 +113,23 @@ def main(tier, seed):
     for T in (2, 4, 8, 16):
         for r in range(reps):
             jobs.append((w_tsan, (tsan, T, iters, seed * 100 + r * 7 + T, 1 if r % 3 else 0)))
+    # the two foreign back-end source sets (compiled against the adapter of C18, whose own counters are lock-protected) under TSan and
+    # at full speed: back-end state that is shared between objects shows as a race / as outcomes that differ from the sequential ones
+    SHIM = os.path.join(core.VERIF, "shim", "idn")
+    for b in ("idn", "idnkit"):
+        kw = dict(driver=("drv/thr.c",), backend=b, extra_inc=(SHIM,), extra_objs_srcs=[os.path.join(SHIM, "adapter.c")])
+        ft = cx.exe("tsan-thr-%s" % b, san="tsan", **kw)
+        fp = cx.exe("plain-thr-%s" % b, san="plain-O2", **kw)
+        for T in (4, 16):
+            jobs.append((w_tsan, (ft, T, 1500 if tier == "quick" else 8000, seed * 100 + 70 + T, 1, "std", "tsan-" + b)))
+        jobs.append((w_plain, (fp, 8, 3000 if tier == "quick" else 30000, seed * 10 + 7, 3, "std", "plain-" + b)))
+    # full-speed runs: 150 cold starts of 8 threads x 40 iterations (lazily initialised state is raced for at every start), and long
+    # runs over the IDN-failure pool (messages produced at call time)
+    for j in range(4):
+        jobs.append((w_plain, (plain, 8, 40, seed * 10 + j, 150 if tier == "quick" else 1500, "std")))
+    for T in (4, 16):
+        jobs.append((w_plain, (plain, T, 12000 if tier == "quick" else 60000, seed * 10 + T, 4, "idn")))
+        jobs.append((w_tsan, (tsan, T, 1500 if tier == "quick" else 10000, seed * 100 + 50 + T, 1, "idn")))
     jobs.append((w_valgrind, (plain, "helgrind", 4, 150 if tier == "quick" else 1500, seed)))
     if tier != "quick":
         jobs.append((w_valgrind, (plain, "helgrind", 8, 800, seed + 1)))
@@ -129,7 +179,7 @@ def main(tier, seed):
                               {"mismatches": info["mismatches"], "first": fm})
         for kind, frames, blk in res["reports"]:
             rep.counters["%s.reports" % res["tool"]] += 1
-            if frames or res["tool"] == "tsan":
+            if frames or res["tool"].startswith("tsan"):
                 rep.violation("race/%s/%s" % (kind, "+".join(frames) or "unknown-frames"),
                               {"tool": res["tool"], "threads": res["T"], "seed": res["seed"]}, {"report": blk[:1500]})
             else:
